@@ -88,7 +88,7 @@ func CopyObjectProperties(to, from *Object) (*Object, error) {
 	}
 	to.Summary = replaceIfNaturalLanguageValues(to.Summary, from.Summary)
 	to.Tag = replaceIfItemCollection(to.Tag, from.Tag)
-	if from.URL != nil {
+	if !IsNil(from.URL) {
 		to.URL = from.URL
 	}
 	to.To = replaceIfItemCollection(to.To, from.To)
@@ -107,6 +107,21 @@ func copyAllItemProperties(to, from Item) (Item, error) {
 	typ := to.GetType()
 	if typ == "" {
 		typ = from.GetType()
+	}
+	if typ == "" {
+		// neither side says what it is: the kind of value `to` is decides what there is to merge
+		switch to.(type) {
+		case *Actor, Actor:
+			typ = ActorTypes[0]
+		case *Collection, Collection:
+			typ = CollectionType
+		case *CollectionPage, CollectionPage:
+			typ = CollectionPageType
+		case *OrderedCollection, OrderedCollection:
+			typ = OrderedCollectionType
+		case *OrderedCollectionPage, OrderedCollectionPage:
+			typ = OrderedCollectionPageType
+		}
 	}
 	if CollectionType == typ {
 		o, err := ToCollection(to)
@@ -209,22 +224,25 @@ func UpdatePersonProperties(to, from *Actor) (*Actor, error) {
 	return to, err
 }
 
+// the replaceIf helpers keep the old value when the new one is unset; an empty list, an empty text list and a nil pointer
+// carry nothing either (the *New constructors and the gob decoder leave empty non-nil lists behind)
+
 func replaceIfItem(old, new Item) Item {
-	if new == nil {
+	if IsNil(new) {
 		return old
 	}
 	return new
 }
 
 func replaceIfItemCollection(old, new ItemCollection) ItemCollection {
-	if new == nil {
+	if len(new) == 0 {
 		return old
 	}
 	return new
 }
 
 func replaceIfNaturalLanguageValues(old, new NaturalLanguageValues) NaturalLanguageValues {
-	if new == nil {
+	if len(new) == 0 {
 		return old
 	}
 	return new
